@@ -12,6 +12,11 @@ impl HasKey<Public> for V3 {
     type Key = PublicKey;
 
     fn decode(bytes: &[u8]) -> Result<PublicKey, PasetoError> {
+        // k3.public is the 49-byte compressed point only: no uncompressed, hybrid
+        // or identity encodings (the point at infinity cannot be compressed again).
+        if bytes.len() != 49 || !matches!(bytes[0], 0x02 | 0x03) {
+            return Err(PasetoError::InvalidKey);
+        }
         let pk = VerifyingKey::from_sec1_bytes(bytes)?;
         Ok(PublicKey(pk))
     }
